@@ -16,7 +16,7 @@ package push
 //@ // Link headers come from backends: zero-annotation safety sweep of the parser and of the push handler's use of it
 //@ use @verif/specs/stdlib.spec:stdlib
 
-//@ unit push_rules props=C11 nilchecks=on dispenser_variants=on filter=`push\.parsePushRules$|push\.parsePushRules\$1$`
+//@ unit push_rules frames=on props=C11 nilchecks=on dispenser_variants=on filter=`push\.parsePushRules$|push\.parsePushRules\$1$`
 //@ // the parser of the `push` directive: the rule a line adds resources to is always one that exists (taken from the
 //@ // table under its path or just created and entered there); safety and termination for every token sequence
 //@ use casketfile/contracts_verif.go:dispenser_api
@@ -31,6 +31,7 @@ package push
 //@   ensures [cursor_monotone] c.Dispenser.cursor >= old(c.Dispenser.cursor)
 //@   loop 1 invariant c != nil && c.Dispenser.cursor >= old(c.Dispenser.cursor)
 //@ func parsePushRules
+//@   modifies Dispenser.cursor, Rule.Resources
 //@   requires c != nil
 //@   loop 1 invariant c != nil && rules != nil && forallT(k, string, has(rules, k) ==> rules[k] != nil)
 //@   loop 2 invariant c != nil && rules != nil && rule != nil && forallT(k, string, has(rules, k) ==> rules[k] != nil) && 1 <= i
